@@ -261,7 +261,7 @@ func render(t *rapid.T, b []byte, label string) string {
 	return s
 }
 
-var nonHexKinds = []string{"odd-length", "rune-g", "rune-space", "rune-dash", "rune-multibyte", "rune-nul", "0x0x-prefix", "leading-space", "trailing-newline", "0x-odd", "x-only-prefix"}
+var nonHexKinds = []string{"tail-after-full-length", "tail-after-full-length", "odd-length", "rune-g", "rune-space", "rune-dash", "rune-multibyte", "rune-nul", "0x0x-prefix", "leading-space", "trailing-newline", "0x-odd", "x-only-prefix"}
 
 // spoil turns a well-formed rendering into a non-hex string by one named edit.
 func spoil(t *rapid.T, s string, label string) (string, string) {
@@ -276,6 +276,11 @@ func spoil(t *rapid.T, s string, label string) (string, string) {
 	}
 	put := func(r string) string { return pre + body[:pos] + r + body[pos+1:] }
 	switch kind {
+	case "tail-after-full-length":
+		// the whole expected length is well-formed hex, MORE well-formed hex follows, and only then the foreign character
+		extra := strings.Repeat("0123456789abcdefABCDEF", 2)[:2*rapid.IntRange(1, 20).Draw(t, label+"Extra")]
+		junk := rapid.SampledFrom([]string{"zz", "g", "\n ", "0g", " ", "-", "é"}).Draw(t, label+"Junk")
+		return s + extra + junk, kind
 	case "odd-length":
 		return pre + body[:len(body)-1], kind
 	case "rune-g":
@@ -299,6 +304,23 @@ func spoil(t *rapid.T, s string, label string) (string, string) {
 	default:
 		return "x" + body, kind
 	}
+}
+
+// hexLikeMsg draws a message; a JavaScript caller's messages are often text, and text may itself look like the
+// hex arguments (start with "0x", be all hex digits) without being one: the wrappers must not interpret it.
+func hexLikeMsg(t *rapid.T) []byte {
+	m := pu.Msg(100).Draw(t, "msg")
+	switch rapid.IntRange(0, 7).Draw(t, "msgShape") {
+	case 0:
+		return append([]byte("0x"), m...)
+	case 1:
+		return []byte("0x" + hex.EncodeToString(m))
+	case 2:
+		return []byte("0x")
+	case 3:
+		return []byte(hex.EncodeToString(m))
+	}
+	return m
 }
 
 type dkey struct {
@@ -335,7 +357,7 @@ func TestWrappers(t *testing.T) {
 		switch c.Func {
 		case "DilithiumVerify":
 			k := dk[rapid.IntRange(0, len(dk)-1).Draw(rt, "key")]
-			c.Msg = pu.Msg(100).Draw(rt, "msg")
+			c.Msg = hexLikeMsg(rt)
 			s, err := k.d.Sign(c.Msg)
 			r.Health(err == nil, "sign: %v", err)
 			sig, pk = s[:], k.pk[:]
@@ -365,7 +387,7 @@ func TestWrappers(t *testing.T) {
 			validity = fmt.Sprintf("first-byte-%02x", addr[0])
 		case "XMSSVerify":
 			k := xk[rapid.IntRange(0, len(xk)-1).Draw(rt, "key")]
-			c.Msg = pu.Msg(100).Draw(rt, "msg")
+			c.Msg = hexLikeMsg(rt)
 			idx := uint32(rapid.IntRange(0, 15).Draw(rt, "idx"))
 			sig, pk = k.ref.Sign(idx, c.Msg), k.pk
 			switch validity {
@@ -373,7 +395,11 @@ func TestWrappers(t *testing.T) {
 				bit := rapid.IntRange(0, len(sig)*8-1).Draw(rt, "bit")
 				sig[bit/8] ^= 1 << uint(bit%8)
 			case "other-message":
-				c.Msg = append(append([]byte{}, c.Msg...), 7)
+				if rapid.Bool().Draw(rt, "prefixOnly") {
+					c.Msg = append([]byte("0x"), c.Msg...) // differs from the signed message only by a leading "0x"
+				} else {
+					c.Msg = append(append([]byte{}, c.Msg...), 7)
+				}
 			case "other-key":
 				pk = xk[rapid.IntRange(0, len(xk)-1).Draw(rt, "key2")].pk
 			}
